@@ -7,6 +7,11 @@ import CB.Lemmas.C08Inv64
 namespace CB.Monty
 open CB
 
+/-- the constructors' `one` BEFORE fix commit b15470f: `Uint::MAX.rem(modulus).wrapping_add(&Uint::ONE)`, not reduced
+    (equal to the modulus for modulus 1). Kept because the boxed constructors still compute it as their first step. -/
+def oneOfOld (ms : List Nat) : List Nat :=
+  wrappingAdd (toLimbs ms.length ((B ^ ms.length - 1) % val ms)) (uone ms.length)
+
 section
 variable {n m : Nat}
 
@@ -41,11 +46,11 @@ theorem one_value (hodd : m % 2 = 1) (hgt : 1 < m) : (B ^ n - 1) % m + 1 = B ^ n
     have := Nat.Coprime.eq_one_of_dvd (coprime_Bpow_of_odd hodd n).symm hd
     omega
 
-theorem oneOf_spec (hm : m < B ^ n) (hodd : m % 2 = 1) (hgt : 1 < m) :
-    oneOf (toLimbs n m) = toLimbs n (B ^ n % m) := by
+theorem oneOfOld_spec (hm : m < B ^ n) (hodd : m % 2 = 1) (hgt : 1 < m) :
+    oneOfOld (toLimbs n m) = toLimbs n (B ^ n % m) := by
   have hn := npos_of hm (by omega)
   have hpos : 0 < m := by omega
-  simp only [oneOf, toLimbs_length, val_toLimbs_lt hm]
+  simp only [oneOfOld, toLimbs_length, val_toLimbs_lt hm]
   have hr := Nat.mod_lt (B ^ n - 1) hpos
   have ⟨v, w, l⟩ := @wrappingAdd_val (toLimbs n ((B ^ n - 1) % m)) (uone n)
     (by rw [toLimbs_length, uone_length])
@@ -110,7 +115,7 @@ theorem r3_value {r : List Nat} (_hm : m < B ^ n) (hodd : m % 2 = 1)
   congr 1
   rw [show 3 * n = n + n + n by omega, Nat.two_mul, Nat.pow_add, Nat.pow_add]; ring
 
-theorem r3Of_spec (hm : m < B ^ n) (hodd : m % 2 = 1) (hgt : 1 < m) :
+theorem r3Of_spec (hm : m < B ^ n) (hodd : m % 2 = 1) :
     r3Of (toLimbs n m) (toLimbs n (B ^ (2 * n) % m)) (negInvOf (toLimbs n m)) = toLimbs n (B ^ (3 * n) % m) ∧
     bSquare (toLimbs n (B ^ (2 * n) % m)) (toLimbs n m) (negInvOf (toLimbs n m)) = toLimbs n (B ^ (3 * n) % m) := by
   have hn := npos_of hm (by omega)
@@ -130,25 +135,27 @@ theorem r3Of_spec (hm : m < B ^ n) (hodd : m % 2 = 1) (hgt : 1 < m) :
     rw [hr2] at this
     exact r3_value hm hodd this.2.2.1 this.2.2.2 this.1 this.2.1
 
-/-- T08.2: every constructor computes exactly the defined constants. -/
-theorem params_eq_spec (hm : m < B ^ n) (hodd : m % 2 = 1) (hgt : 1 < m) :
-    paramsNew (toLimbs n m) = paramsSpec n m ∧ paramsNewVartime (toLimbs n m) = paramsSpec n m ∧
-    paramsConst (toLimbs n m) = paramsSpec n m ∧ paramsBoxed (toLimbs n m) = paramsSpec n m := by
-  have hn := npos_of hm (by omega)
+/-- the part of every constructor after `one`: given the canonical `one = R mod m`, all remaining fields are the
+    defined constants — for every odd `m ≥ 1`. -/
+theorem paramsWith_eq_spec (hm : m < B ^ n) (hodd : m % 2 = 1) :
+    paramsNewWith (toLimbs n (B ^ n % m)) (toLimbs n m) = paramsSpec n m ∧
+    paramsNewVartimeWith (toLimbs n (B ^ n % m)) (toLimbs n m) = paramsSpec n m ∧
+    paramsConstWith (toLimbs n (B ^ n % m)) (toLimbs n m) = paramsSpec n m ∧
+    paramsBoxedWith (toLimbs n (B ^ n % m)) (toLimbs n m) = paramsSpec n m := by
   have hpos : 0 < m := by omega
-  have h1 := oneOf_spec hm hodd hgt
+  have hn := npos_of hm hpos
   have h2 := r2Of_spec (n := n) hm hpos
   have ⟨hk, _⟩ := negInvOf_spec (n := n) (m := m) hn hodd
-  have ⟨h3, h3b⟩ := r3Of_spec hm hodd hgt
+  have ⟨h3, h3b⟩ := r3Of_spec hm hodd
   have hz1 : ∀ z : Nat, (if z < 63 then z else 63) = Nat.min z 63 := by
     intro z; simp only [Nat.min_def]; split <;> split <;> omega
   have hz2 : ∀ z : Nat, (if z ≥ 64 then 63 else z) = Nat.min z 63 := by
     intro z; simp only [Nat.min_def]; split <;> split <;> omega
   refine ⟨?_, ?_, ?_, ?_⟩
-  · simp only [paramsNew, paramsSpec, h1, h2, h3, hz1, toLimbs_length, val_toLimbs_lt hm]; rw [hk]
-  · simp only [paramsNewVartime, paramsSpec, h1, h2, h3, hz1, toLimbs_length, val_toLimbs_lt hm]; rw [hk]
-  · simp only [paramsConst, paramsSpec, h1, h2, h3, hz2, toLimbs_length, val_toLimbs_lt hm]; rw [hk]
-  · simp only [paramsBoxed, paramsSpec, h1, h2, h3b, toLimbs_length, val_toLimbs_lt hm]; rw [hk]
+  · simp only [paramsNewWith, paramsSpec, h2, h3, hz1, toLimbs_length, val_toLimbs_lt hm]; rw [hk]
+  · simp only [paramsNewVartimeWith, paramsSpec, h2, h3, hz1, toLimbs_length, val_toLimbs_lt hm]; rw [hk]
+  · simp only [paramsConstWith, paramsSpec, h2, h3, hz2, toLimbs_length, val_toLimbs_lt hm]; rw [hk]
+  · simp only [paramsBoxedWith, paramsSpec, h2, h3b, toLimbs_length, val_toLimbs_lt hm]; rw [hk]
 
 /-- the defined constants are what the history invariant needs. -/
 theorem good_spec (hm : m < B ^ n) (hodd : m % 2 = 1) : Good (paramsSpec n m) n m := by
@@ -156,6 +163,132 @@ theorem good_spec (hm : m < B ^ n) (hodd : m % 2 = 1) : Good (paramsSpec n m) n 
   have hn := npos_of hm hpos
   have ⟨hk, hk2⟩ := negInvOf_spec (n := n) (m := m) hn hodd
   exact ⟨rfl, hm, hodd, hpos, rfl, rfl, by simp only [paramsSpec]; rw [← hk]; exact hk2⟩
+
+/-! ### modulus 1, every width: the constructors' `one` equals the modulus -/
+
+/-- `(MAX mod 1) + 1 = 1` at every width: `one` is the modulus itself, not `R mod 1 = 0`. -/
+theorem oneOfOld_modulus_one (hn : 0 < n) : oneOfOld (toLimbs n 1) = toLimbs n 1 := by
+  have h1 : (1 : Nat) < B ^ n := Nat.one_lt_pow (by omega) (by decide)
+  simp only [oneOfOld, toLimbs_length, val_toLimbs_lt h1, Nat.mod_one]
+  have ⟨v, w, l⟩ := @wrappingAdd_val (toLimbs n 0) (uone n) (by rw [toLimbs_length, uone_length])
+  rw [toLimbs_length] at v l
+  apply eq_toLimbs w l
+  rw [v, val_toLimbs_lt (Bpow_pos n), val_uone hn, Nat.zero_add, Nat.mod_eq_of_lt h1]
+
+/-! ### the constructors' `one` since fix commit b15470f: reduced once -/
+
+theorem oneOfBoxed_eq (ms : List Nat) :
+    oneOfBoxed ms = (usbb (oneOfOld ms) (bitandLimb ms (if val (oneOfOld ms) < val ms then 0 else WMAX)) 0).1 := rfl
+
+/-- `((R − 1) mod m + 1) mod m = R mod m` for every `m ≥ 1`. -/
+theorem one_value_mod (_hpos : 0 < m) : ((B ^ n - 1) % m + 1) % m = B ^ n % m := by
+  have hK := Bpow_pos n
+  have h1 : B ^ n = (B ^ n - 1) + 1 := by omega
+  calc ((B ^ n - 1) % m + 1) % m = ((B ^ n - 1) + 1) % m := by rw [Nat.add_mod, Nat.mod_mod, ← Nat.add_mod]
+    _ = B ^ n % m := by rw [← h1]
+
+theorem uone_WF (n : Nat) : WF (uone n) := by
+  cases n with
+  | zero => exact WF_of_all _ (by decide)
+  | succ k =>
+    simp only [uone]
+    exact WF_cons.mpr ⟨by decide, uzero_WF k⟩
+
+/-- the repaired fixed-width `one` is `R mod m` for EVERY odd modulus, `m = 1` included. -/
+theorem oneOf_spec (hm : m < B ^ n) (hodd : m % 2 = 1) :
+    oneOf (toLimbs n m) = toLimbs n (B ^ n % m) := by
+  have hpos : 0 < m := by omega
+  have hn := npos_of hm hpos
+  simp only [oneOf, toLimbs_length, val_toLimbs_lt hm]
+  have hr := Nat.mod_lt (B ^ n - 1) hpos
+  have hrv : val (toLimbs n ((B ^ n - 1) % m)) = (B ^ n - 1) % m := val_toLimbs_lt (by omega)
+  have ⟨⟨v, w, l⟩, _⟩ := @addMod_spec_sum (toLimbs n ((B ^ n - 1) % m)) (uone n) (toLimbs n m)
+    (toLimbs_WF _ _) (uone_WF n) (toLimbs_WF _ _) (by rw [toLimbs_length, uone_length])
+    (by rw [toLimbs_length, toLimbs_length])
+    (by rw [hrv, val_toLimbs_lt hm]; exact hr) (by rw [hrv, val_uone hn, val_toLimbs_lt hm]; omega)
+  rw [toLimbs_length] at l
+  apply eq_toLimbs w l
+  rw [v, hrv, val_uone hn, val_toLimbs_lt hm, one_value_mod hpos]
+
+/-- value of the unrepaired `one` for every odd `m ≥ 1`: `(R − 1) mod m + 1 ∈ 1..=m`. -/
+theorem oneOfOld_val (hm : m < B ^ n) (hpos : 0 < m) :
+    val (oneOfOld (toLimbs n m)) = (B ^ n - 1) % m + 1 ∧ WF (oneOfOld (toLimbs n m)) ∧
+    (oneOfOld (toLimbs n m)).length = n := by
+  have hn := npos_of hm hpos
+  simp only [oneOfOld, toLimbs_length, val_toLimbs_lt hm]
+  have hr := Nat.mod_lt (B ^ n - 1) hpos
+  have ⟨v, w, l⟩ := @wrappingAdd_val (toLimbs n ((B ^ n - 1) % m)) (uone n)
+    (by rw [toLimbs_length, uone_length])
+  rw [toLimbs_length] at v l
+  refine ⟨?_, w, l⟩
+  rw [v, val_toLimbs_lt (by omega), val_uone hn]
+  exact Nat.mod_eq_of_lt (by omega)
+
+/-- the repaired boxed `one` is `R mod m` for EVERY odd modulus, `m = 1` included. -/
+theorem oneOfBoxed_spec (hm : m < B ^ n) (hodd : m % 2 = 1) :
+    oneOfBoxed (toLimbs n m) = toLimbs n (B ^ n % m) := by
+  have hpos : 0 < m := by omega
+  have hn := npos_of hm hpos
+  have ⟨ov, ow, ol⟩ := oneOfOld_val (n := n) hm hpos
+  have hr := Nat.mod_lt (B ^ n - 1) hpos
+  have hmod := one_value_mod (n := n) hpos
+  rw [oneOfBoxed_eq]
+  simp only [val_toLimbs_lt hm]
+  have hK := Bpow_pos n
+  by_cases hlt : val (oneOfOld (toLimbs n m)) < m
+  · rw [if_pos hlt, bitandLimb_zero, toLimbs_length]
+    have ⟨s1, _, _⟩ := @usbb_spec (oneOfOld (toLimbs n m)) (uzero n) 0 ow (uzero_WF n) B_pos
+      (by rw [ol]; simp [uzero])
+    have sw := usbb_WF (oneOfOld (toLimbs n m)) (uzero n) 0
+    have sl := usbb_length (oneOfOld (toLimbs n m)) (uzero n) 0 (by rw [ol]; simp [uzero])
+    have solt := val_lt sw
+    rw [sl, ol] at solt
+    apply eq_toLimbs sw (sl.trans ol)
+    rw [ol, val_uzero] at s1
+    simp only [Nat.zero_div, Nat.add_zero] at s1
+    rw [ov] at hlt s1
+    rw [← hmod, Nat.mod_eq_of_lt hlt]
+    generalize B ^ n = K at *
+    rcases Nat.eq_zero_or_pos ((usbb (oneOfOld (toLimbs n m)) (uzero n) 0).2 / HALF) with h | h
+    · rw [h] at s1; omega
+    · have : K ≤ K * ((usbb (oneOfOld (toLimbs n m)) (uzero n) 0).2 / HALF) := Nat.le_mul_of_pos_right _ h
+      omega
+  · rw [if_neg hlt, bitandLimb_max (toLimbs_WF _ _)]
+    have ⟨s1, _, _⟩ := @usbb_spec (oneOfOld (toLimbs n m)) (toLimbs n m) 0 ow (toLimbs_WF _ _) B_pos
+      (by rw [ol, toLimbs_length])
+    have sw := usbb_WF (oneOfOld (toLimbs n m)) (toLimbs n m) 0
+    have sl := usbb_length (oneOfOld (toLimbs n m)) (toLimbs n m) 0 (by rw [ol, toLimbs_length])
+    apply eq_toLimbs sw (sl.trans ol)
+    rw [ol, val_toLimbs_lt hm] at s1
+    simp only [Nat.zero_div, Nat.add_zero] at s1
+    rw [ov] at hlt s1
+    have heq : (B ^ n - 1) % m + 1 = m := by omega
+    rw [← hmod, heq, Nat.mod_self]
+    rw [heq] at s1
+    have solt := val_lt sw
+    rw [sl, ol] at solt
+    generalize B ^ n = K at *
+    rcases Nat.eq_zero_or_pos ((usbb (oneOfOld (toLimbs n m)) (toLimbs n m) 0).2 / HALF) with h | h
+    · rw [h] at s1; omega
+    · have : K ≤ K * ((usbb (oneOfOld (toLimbs n m)) (toLimbs n m) 0).2 / HALF) := Nat.le_mul_of_pos_right _ h
+      omega
+
+/-- T08.2: every constructor computes exactly the defined constants, for EVERY odd modulus (1 included). -/
+theorem params_eq_spec (hm : m < B ^ n) (hodd : m % 2 = 1) :
+    paramsNew (toLimbs n m) = paramsSpec n m ∧ paramsNewVartime (toLimbs n m) = paramsSpec n m ∧
+    paramsConst (toLimbs n m) = paramsSpec n m ∧ paramsBoxed (toLimbs n m) = paramsSpec n m := by
+  simp only [paramsNew, paramsNewVartime, paramsConst, paramsBoxed, oneOf_spec hm hodd, oneOfBoxed_spec hm hodd]
+  exact paramsWith_eq_spec hm hodd
+
+/-- the constructors as they were before fix commit b15470f (with the unreduced `one`): the defined constants only
+    for `m > 1`. -/
+theorem old_params_eq_spec (hm : m < B ^ n) (hodd : m % 2 = 1) (hgt : 1 < m) :
+    paramsNewWith (oneOfOld (toLimbs n m)) (toLimbs n m) = paramsSpec n m ∧
+    paramsNewVartimeWith (oneOfOld (toLimbs n m)) (toLimbs n m) = paramsSpec n m ∧
+    paramsConstWith (oneOfOld (toLimbs n m)) (toLimbs n m) = paramsSpec n m ∧
+    paramsBoxedWith (oneOfOld (toLimbs n m)) (toLimbs n m) = paramsSpec n m := by
+  rw [oneOfOld_spec hm hodd hgt]
+  exact paramsWith_eq_spec hm hodd
 
 end
 
